@@ -41,7 +41,7 @@ CLAIMED.update({
 
 CLAIMED.update({
     "C14": ("Coq proof (invariant by induction over fold_left step; exact per-operation characterisation; permutation argument for late allowed lists) + extracted-model correspondence on exhaustive short and long random histories + invariant oracle + `naunet extend` runs",
-            "Theorems in Props/C14.v: for every history of add / remove by index, index list, instance, instance list / set allowed / set required / remove duplicates / reindex from an empty network, the cached reactant and product sets are exactly those of the held reactions, held reactions mention allowed species only and parked ones a disallowed species; each operation's exact effect on the held and parked lists; setting the allowed list loses nothing and yields the same reactions (multiset) and species as constructing with it. Tied to Network by comparing, after every operation, object identities, indices, parked list, sets, sources, sinks and species with the extracted model.",
+            "Theorems in Props/C14.v: for every history of add / remove by index, index list, instance, instance list / set allowed / set required / remove duplicates / reindex from an empty network, the cached reactant and product sets are exactly those of the held reactions, held reactions mention allowed species only and parked ones a disallowed species; each operation's exact effect on the held and parked lists; setting the allowed list loses nothing and yields the same reactions (multiset) and species as constructing with it. Tied to Network by comparing, after every operation, object identities, indices, parked list, sets, sources, sinks and species with the extracted model. The network-editing command is modelled as the pipeline read -> reduce -> remove -> de-duplicate -> append -> re-index (Model.Network.extend): extend_consistent (the result satisfies the invariant for all options), reduce_keeps_listed_only, append_step_spec (an append step adds x -> counterpart only for species of the network as it is after the reductions); the extracted pipeline is compared with every `naunet extend` variant.",
             "Species are identity classes under Species.__eq__ (computed by the implementation on the alphabet); Python sets are duplicate-free lists compared sorted; remove_reaction(int) only for 0 <= i < len; the append steps of `extend` are exercised through the command line, modelled (append_by) but not part of the proved invariant.",
             "7 C14"),
 })
